@@ -1,12 +1,1265 @@
+// Command extract is the translator of the verification framework: it reads the Go source of
+// /repo's working tree (go/packages: syntax + types) and writes Lean data describing the
+// declarative part of the code — PDU field layouts for IEncode and IDecode, struct field lists,
+// command ids, response constructors, sequence accessors, dispatcher tables, lookup tables and
+// constants — into lean/SmsVerif/Gen/*.lean.  It recognises a closed set of statement forms;
+// anything else becomes an explicit `unsupported "<file:line>"` node which every decidable
+// checker on the Lean side rejects.  It never guesses.
 package main
 
 import (
+	"encoding/json"
+	"flag"
 	"fmt"
+	"go/ast"
+	"go/constant"
+	"go/token"
+	"go/types"
+	"os"
+	"path/filepath"
+	"sort"
+	"strings"
+
 	"golang.org/x/tools/go/packages"
 )
 
+const modPath = "github.com/hujm2023/go-sms-protocol"
+
+type world struct {
+	pkgs  map[string]*packages.Package // by import path
+	fset  *token.FileSet
+	funcs map[*types.Func]*ast.FuncDecl
+	infoOf map[*ast.FuncDecl]*types.Info
+	repo  string
+}
+
 func main() {
-	cfg := &packages.Config{Mode: packages.LoadAllSyntax, Dir: "/repo"}
+	repo := flag.String("repo", "/repo", "repository root")
+	out := flag.String("out", "/verif/lean/SmsVerif/Gen", "output directory")
+	flag.Parse()
+
+	cfg := &packages.Config{
+		Mode: packages.NeedName | packages.NeedFiles | packages.NeedSyntax | packages.NeedTypes | packages.NeedTypesInfo | packages.NeedImports | packages.NeedDeps,
+		Dir:  *repo,
+		Env:  append(os.Environ(), "GOFLAGS=-mod=mod", "GOPROXY=off", "GOSUMDB=off", "GOTOOLCHAIN=local"),
+	}
 	pkgs, err := packages.Load(cfg, "./...")
-	fmt.Println(len(pkgs), err)
+	if err != nil {
+		fmt.Fprintln(os.Stderr, "load:", err)
+		os.Exit(1)
+	}
+	w := &world{pkgs: map[string]*packages.Package{}, funcs: map[*types.Func]*ast.FuncDecl{}, infoOf: map[*ast.FuncDecl]*types.Info{}, repo: *repo}
+	bad := false
+	for _, p := range pkgs {
+		for _, e := range p.Errors {
+			fmt.Fprintln(os.Stderr, "package error:", e)
+			bad = true
+		}
+		w.pkgs[p.PkgPath] = p
+		w.fset = p.Fset
+		for _, f := range p.Syntax {
+			for _, d := range f.Decls {
+				if fd, ok := d.(*ast.FuncDecl); ok {
+					if obj, ok := p.TypesInfo.Defs[fd.Name].(*types.Func); ok {
+						w.funcs[obj] = fd
+						w.infoOf[fd] = p.TypesInfo
+					}
+				}
+			}
+		}
+	}
+	if bad {
+		os.Exit(1)
+	}
+	if err := os.MkdirAll(*out, 0o755); err != nil {
+		panic(err)
+	}
+	writeIfChanged(filepath.Join(*out, "Layouts.lean"), w.genLayouts())
+	writeIfChanged(filepath.Join(*out, "layouts.json"), w.layoutsJSON())
+	writeIfChanged(filepath.Join(*out, "Tables.lean"), w.genTables())
+}
+
+func writeIfChanged(path, content string) {
+	old, err := os.ReadFile(path)
+	if err == nil && string(old) == content {
+		return
+	}
+	if err := os.WriteFile(path, []byte(content), 0o644); err != nil {
+		panic(err)
+	}
+	fmt.Println("wrote", path)
+}
+
+func (w *world) pos(n ast.Node) string {
+	p := w.fset.Position(n.Pos())
+	rel, err := filepath.Rel(w.repo, p.Filename)
+	if err != nil {
+		rel = p.Filename
+	}
+	return fmt.Sprintf("%s:%d", rel, p.Line)
+}
+
+func q(s string) string { return fmt.Sprintf("%q", s) }
+
+// ---------------------------------------------------------------------------------------------
+// struct flattening
+
+type field struct {
+	path string
+	ty   string // Lean FTy term
+}
+
+func uintBytes(t types.Type) int {
+	b, ok := t.Underlying().(*types.Basic)
+	if !ok {
+		return 0
+	}
+	switch b.Kind() {
+	case types.Uint8:
+		return 1
+	case types.Uint16:
+		return 2
+	case types.Uint32:
+		return 4
+	case types.Uint64:
+		return 8
+	}
+	return 0
+}
+
+func isInt(t types.Type) bool {
+	b, ok := t.Underlying().(*types.Basic)
+	return ok && (b.Kind() == types.Int || b.Kind() == types.Int64 || b.Kind() == types.UntypedInt)
+}
+
+func (w *world) flatten(prefix string, t types.Type, out *[]field) {
+	if k := uintBytes(t); k > 0 {
+		*out = append(*out, field{prefix, fmt.Sprintf(".u %d", k)})
+		return
+	}
+	switch u := t.Underlying().(type) {
+	case *types.Basic:
+		if u.Kind() == types.String {
+			*out = append(*out, field{prefix, ".str"})
+			return
+		}
+	case *types.Slice:
+		if b, ok := u.Elem().Underlying().(*types.Basic); ok {
+			if b.Kind() == types.Uint8 {
+				*out = append(*out, field{prefix, ".bytes"})
+				return
+			}
+			if b.Kind() == types.String {
+				*out = append(*out, field{prefix, ".strs"})
+				return
+			}
+		}
+	case *types.Array:
+		for i := int64(0); i < u.Len(); i++ {
+			w.flatten(fmt.Sprintf("%s.%d", prefix, i), u.Elem(), out)
+		}
+		return
+	case *types.Map:
+		if n, ok := t.(*types.Named); ok && (n.Obj().Name() == "TLVs" || n.Obj().Name() == "Options") {
+			*out = append(*out, field{prefix, ".tlvs"})
+			return
+		}
+	case *types.Struct:
+		for i := 0; i < u.NumFields(); i++ {
+			f := u.Field(i)
+			p := f.Name()
+			if prefix != "" {
+				p = prefix + "." + f.Name()
+			}
+			w.flatten(p, f.Type(), out)
+		}
+		return
+	}
+	*out = append(*out, field{prefix, fmt.Sprintf(".str /- unsupported type %s -/", t.String())})
+}
+
+// ---------------------------------------------------------------------------------------------
+// expression translation
+
+type env struct {
+	info   *types.Info
+	paths  map[types.Object]string // identifiers denoting (parts of) the PDU value → field path prefix ("" = the PDU itself)
+	locals map[types.Object]string // single-assignment integer locals → Lean Expr
+	bytesL map[types.Object]string // locals holding a byte-string derived from a field: "hexdec:<path>"
+	writer types.Object
+	reader types.Object
+	loopIx types.Object // index variable of the enclosing counted loop
+}
+
+func (e *env) clone() *env {
+	c := *e
+	c.paths = map[types.Object]string{}
+	for k, v := range e.paths {
+		c.paths[k] = v
+	}
+	c.locals = map[types.Object]string{}
+	for k, v := range e.locals {
+		c.locals[k] = v
+	}
+	c.bytesL = map[types.Object]string{}
+	for k, v := range e.bytesL {
+		c.bytesL[k] = v
+	}
+	return &c
+}
+
+func unparen(x ast.Expr) ast.Expr {
+	for {
+		p, ok := x.(*ast.ParenExpr)
+		if !ok {
+			return x
+		}
+		x = p.X
+	}
+}
+
+// fieldPath resolves p.F, p.Header.F, h.F, p.Seq[0] to a flattened path.
+func (w *world) fieldPath(e *env, x ast.Expr) (string, bool) {
+	x = unparen(x)
+	switch v := x.(type) {
+	case *ast.Ident:
+		if p, ok := e.paths[e.info.ObjectOf(v)]; ok {
+			return p, true
+		}
+	case *ast.StarExpr:
+		return w.fieldPath(e, v.X)
+	case *ast.SelectorExpr:
+		base, ok := w.fieldPath(e, v.X)
+		if !ok {
+			return "", false
+		}
+		sel := e.info.Selections[v]
+		if sel == nil || sel.Kind() != types.FieldVal {
+			return "", false
+		}
+		// walk embedded fields explicitly so that promoted fields get their full path
+		t := sel.Recv()
+		path := base
+		for i, idx := range sel.Index() {
+			if ptr, ok := t.Underlying().(*types.Pointer); ok {
+				t = ptr.Elem()
+			}
+			st, ok := t.Underlying().(*types.Struct)
+			if !ok {
+				return "", false
+			}
+			f := st.Field(idx)
+			if path == "" {
+				path = f.Name()
+			} else {
+				path = path + "." + f.Name()
+			}
+			t = f.Type()
+			_ = i
+		}
+		return path, true
+	case *ast.IndexExpr:
+		base, ok := w.fieldPath(e, v.X)
+		if !ok {
+			return "", false
+		}
+		if tv, ok := e.info.Types[v.Index]; ok && tv.Value != nil {
+			if _, isArr := e.info.TypeOf(v.X).Underlying().(*types.Array); isArr {
+				n, _ := constant.Int64Val(tv.Value)
+				return fmt.Sprintf("%s.%d", base, n), true
+			}
+		}
+	}
+	return "", false
+}
+
+// intExpr translates an integer-valued Go expression to a Lean `Expr`, making wrap-around explicit.
+func (w *world) intExpr(e *env, x ast.Expr) (string, bool) {
+	x = unparen(x)
+	if tv, ok := e.info.Types[x]; ok && tv.Value != nil && tv.Value.Kind() == constant.Int {
+		if n, exact := constant.Uint64Val(tv.Value); exact {
+			return fmt.Sprintf("(.lit %d)", n), true
+		}
+		return "", false
+	}
+	wrap := func(s string, t types.Type) string {
+		if k := uintBytes(t); k > 0 {
+			return fmt.Sprintf("(.conv %d %s)", k, s)
+		}
+		return s
+	}
+	switch v := x.(type) {
+	case *ast.Ident:
+		if s, ok := e.locals[e.info.ObjectOf(v)]; ok {
+			return s, true
+		}
+	case *ast.SelectorExpr, *ast.IndexExpr:
+		if p, ok := w.fieldPath(e, x); ok {
+			t := e.info.TypeOf(x)
+			if uintBytes(t) > 0 {
+				return fmt.Sprintf("(.fld %s)", q(p)), true
+			}
+		}
+	case *ast.CallExpr:
+		// conversion T(x)
+		if tv, ok := e.info.Types[v.Fun]; ok && tv.IsType() && len(v.Args) == 1 {
+			inner, ok := w.intExpr(e, v.Args[0])
+			if !ok {
+				return "", false
+			}
+			if k := uintBytes(tv.Type); k > 0 {
+				return fmt.Sprintf("(.conv %d %s)", k, inner), true
+			}
+			if isInt(tv.Type) {
+				return inner, true // int is 64-bit; the values converted here are at most 32 bits wide
+			}
+			return "", false
+		}
+		// len(p.F)
+		if id, ok := v.Fun.(*ast.Ident); ok && id.Name == "len" && len(v.Args) == 1 {
+			if _, isB := e.info.Uses[id].(*types.Builtin); isB {
+				if p, ok := w.fieldPath(e, v.Args[0]); ok {
+					return fmt.Sprintf("(.lenOf %s)", q(p)), true
+				}
+			}
+		}
+		// x.M() for a method that just converts its receiver: func (s T) M() U { return U(s) }
+		if sel, ok := v.Fun.(*ast.SelectorExpr); ok && len(v.Args) == 0 {
+			if fn, ok := e.info.Uses[sel.Sel].(*types.Func); ok {
+				if fd := w.funcs[fn]; fd != nil && fd.Recv != nil && len(fd.Recv.List) == 1 && len(fd.Recv.List[0].Names) == 1 &&
+					fd.Body != nil && len(fd.Body.List) == 1 {
+					if ret, ok := fd.Body.List[0].(*ast.ReturnStmt); ok && len(ret.Results) == 1 {
+						finfo := w.infoOf[fd]
+						if call, ok := unparen(ret.Results[0]).(*ast.CallExpr); ok && len(call.Args) == 1 {
+							if tv, ok := finfo.Types[call.Fun]; ok && tv.IsType() {
+								if id, ok := unparen(call.Args[0]).(*ast.Ident); ok && finfo.ObjectOf(id) == finfo.ObjectOf(fd.Recv.List[0].Names[0]) {
+									inner, ok := w.intExpr(e, sel.X)
+									if ok {
+										return wrap(inner, tv.Type), true
+									}
+								}
+							}
+						}
+					}
+				}
+			}
+		}
+	case *ast.BinaryExpr:
+		if v.Op == token.ADD || v.Op == token.MUL {
+			a, ok1 := w.intExpr(e, v.X)
+			b, ok2 := w.intExpr(e, v.Y)
+			if ok1 && ok2 {
+				op := ".add"
+				if v.Op == token.MUL {
+					op = ".mul"
+				}
+				return wrap(fmt.Sprintf("(%s %s %s)", op, a, b), e.info.TypeOf(x)), true
+			}
+		}
+	}
+	return "", false
+}
+
+func (w *world) condExpr(e *env, x ast.Expr) (string, bool) {
+	x = unparen(x)
+	b, ok := x.(*ast.BinaryExpr)
+	if !ok {
+		return "", false
+	}
+	switch b.Op {
+	case token.LAND:
+		l, ok1 := w.condExpr(e, b.X)
+		r, ok2 := w.condExpr(e, b.Y)
+		if ok1 && ok2 {
+			return fmt.Sprintf("(.and %s %s)", l, r), true
+		}
+	case token.EQL, token.NEQ:
+		l, ok1 := w.intExpr(e, b.X)
+		r, ok2 := w.intExpr(e, b.Y)
+		if ok1 && ok2 {
+			op := ".eq"
+			if b.Op == token.NEQ {
+				op = ".ne"
+			}
+			return fmt.Sprintf("(%s %s %s)", op, l, r), true
+		}
+	}
+	return "", false
+}
+
+// callee returns the *types.Func a call expression invokes, plus the receiver expression for methods.
+func (w *world) callee(e *env, c *ast.CallExpr) (*types.Func, ast.Expr) {
+	switch f := unparen(c.Fun).(type) {
+	case *ast.Ident:
+		if fn, ok := e.info.Uses[f].(*types.Func); ok {
+			return fn, nil
+		}
+	case *ast.SelectorExpr:
+		if fn, ok := e.info.Uses[f.Sel].(*types.Func); ok {
+			if sel := e.info.Selections[f]; sel != nil {
+				return fn, f.X
+			}
+			return fn, nil // package-qualified function
+		}
+	}
+	return nil, nil
+}
+
+func fullName(fn *types.Func) string {
+	if fn == nil {
+		return ""
+	}
+	return fn.FullName()
+}
+
+func isObj(e *env, x ast.Expr, o types.Object) bool {
+	id, ok := unparen(x).(*ast.Ident)
+	return ok && o != nil && e.info.ObjectOf(id) == o
+}
+
+func constInt(e *env, x ast.Expr) (int64, bool) {
+	if tv, ok := e.info.Types[x]; ok && tv.Value != nil && tv.Value.Kind() == constant.Int {
+		n, exact := constant.Int64Val(tv.Value)
+		return n, exact
+	}
+	return 0, false
+}
+
+// ---------------------------------------------------------------------------------------------
+// IEncode
+
+type encOut struct {
+	ops []string
+	fin string
+}
+
+func (w *world) unsup(n ast.Node) string { return fmt.Sprintf(".unsupported %s", q(w.pos(n))) }
+
+// strArg classifies a string/[]byte argument: a field path, or a derived local.
+func (w *world) strArg(e *env, x ast.Expr) (kind, path string, ok bool) {
+	x = unparen(x)
+	if p, ok := w.fieldPath(e, x); ok {
+		return "field", p, true
+	}
+	if id, ok := x.(*ast.Ident); ok {
+		if s, ok := e.bytesL[e.info.ObjectOf(id)]; ok {
+			parts := strings.SplitN(s, ":", 2)
+			return parts[0], parts[1], true
+		}
+	}
+	if c, ok := x.(*ast.CallExpr); ok && len(c.Args) == 1 {
+		// string(x) / []byte(x) conversions are transparent
+		if tv, ok := e.info.Types[c.Fun]; ok && tv.IsType() {
+			return w.strArg(e, c.Args[0])
+		}
+	}
+	return "", "", false
+}
+
+func (w *world) encStmts(e *env, stmts []ast.Stmt, out *encOut) {
+	for _, s := range stmts {
+		w.encStmt(e, s, out)
+	}
+}
+
+func (w *world) writerCall(e *env, c *ast.CallExpr, out *encOut, elemVar types.Object, elemList string) bool {
+	fn, recv := w.callee(e, c)
+	if fn == nil || recv == nil || !isObj(e, recv, e.writer) {
+		return false
+	}
+	name := fn.Name()
+	switch name {
+	case "WriteUint8", "WriteUint16", "WriteUint32", "WriteUint64":
+		k := map[string]int{"WriteUint8": 1, "WriteUint16": 2, "WriteUint32": 4, "WriteUint64": 8}[name]
+		if x, ok := w.intExpr(e, c.Args[0]); ok {
+			out.ops = append(out.ops, fmt.Sprintf(".num %d %s", k, x))
+			return true
+		}
+	case "WriteCString":
+		if k, p, ok := w.strArg(e, c.Args[0]); ok && k == "field" {
+			out.ops = append(out.ops, fmt.Sprintf(".cstr %s", q(p)))
+			return true
+		}
+	case "WriteString", "WriteBytes":
+		if k, p, ok := w.strArg(e, c.Args[0]); ok && k == "field" {
+			out.ops = append(out.ops, fmt.Sprintf(".raw %s", q(p)))
+			return true
+		}
+		// b.WriteBytes(p.Header.Bytes()) / p.TLVs.Bytes() / p.Options.Serialize()
+		if ic, ok := unparen(c.Args[0]).(*ast.CallExpr); ok {
+			ifn, irecv := w.callee(e, ic)
+			if ifn != nil && irecv != nil {
+				if p, ok := w.fieldPath(e, irecv); ok {
+					switch fullName(ifn) {
+					case "(" + modPath + "/smpp.TLVs).Bytes", "(" + modPath + "/smgp.Options).Serialize":
+						out.ops = append(out.ops, fmt.Sprintf(".tlvs %s", q(p)))
+						return true
+					}
+					if ifn.Name() == "Bytes" && strings.HasSuffix(fullName(ifn), ".Header).Bytes") {
+						if ops, ok := w.inlineHeaderBytes(ifn, p); ok {
+							out.ops = append(out.ops, ops...)
+							return true
+						}
+					}
+				}
+			}
+		}
+	case "WriteFixedLenString":
+		k, p, ok := w.strArg(e, c.Args[0])
+		// element of the enclosing loop?
+		if !ok && elemVar != nil && isObj(e, c.Args[0], elemVar) {
+			if n, ok := constInt(e, c.Args[1]); ok {
+				out.ops = append(out.ops, fmt.Sprintf("ELEM %s %d", elemList, n))
+				return true
+			}
+		}
+		if !ok {
+			if ix, ok2 := unparen(c.Args[0]).(*ast.IndexExpr); ok2 && e.loopIx != nil && isObj(e, ix.Index, e.loopIx) {
+				if lp, ok3 := w.fieldPath(e, ix.X); ok3 {
+					if n, ok := constInt(e, c.Args[1]); ok {
+						out.ops = append(out.ops, fmt.Sprintf("ELEM %s %d", lp, n))
+						return true
+					}
+				}
+			}
+			return false
+		}
+		if n, isConst := constInt(e, c.Args[1]); isConst {
+			switch k {
+			case "field":
+				out.ops = append(out.ops, fmt.Sprintf(".fixed %s %d", q(p), n))
+				return true
+			case "hexdec":
+				out.ops = append(out.ops, fmt.Sprintf(".hexFixed %s %d", q(p), n))
+				return true
+			}
+		} else if x, ok := w.intExpr(e, c.Args[1]); ok && k == "field" {
+			out.ops = append(out.ops, fmt.Sprintf(".fixedDyn %s %s", q(p), x))
+			return true
+		}
+	}
+	return false
+}
+
+// inlineHeaderBytes: func (h Header) Bytes() []byte { …; binary.Write(buf, binary.BigEndian, h.X); …; return buf.Bytes() }
+func (w *world) inlineHeaderBytes(fn *types.Func, prefix string) ([]string, bool) {
+	fd := w.funcs[fn]
+	if fd == nil || fd.Body == nil || fd.Recv == nil || len(fd.Recv.List[0].Names) != 1 {
+		return nil, false
+	}
+	info := w.infoOf[fd]
+	e := &env{info: info, paths: map[types.Object]string{info.ObjectOf(fd.Recv.List[0].Names[0]): prefix}, locals: map[types.Object]string{}, bytesL: map[types.Object]string{}}
+	var ops []string
+	for _, s := range fd.Body.List {
+		switch st := s.(type) {
+		case *ast.AssignStmt:
+			if len(st.Rhs) == 1 {
+				if c, ok := st.Rhs[0].(*ast.CallExpr); ok {
+					cfn, _ := w.callee(e, c)
+					switch fullName(cfn) {
+					case "encoding/binary.Write":
+						if len(c.Args) == 3 && types.ExprString(c.Args[1]) == "binary.BigEndian" {
+							if p, ok := w.fieldPath(e, c.Args[2]); ok {
+								if k := uintBytes(info.TypeOf(c.Args[2])); k > 0 {
+									ops = append(ops, fmt.Sprintf(".num %d (.fld %s)", k, q(p)))
+									continue
+								}
+							}
+						}
+						return nil, false
+					case "bytes.NewBuffer":
+						continue
+					}
+					if id, ok := c.Fun.(*ast.Ident); ok && id.Name == "make" {
+						continue
+					}
+				}
+			}
+			return nil, false
+		case *ast.ReturnStmt:
+			if len(st.Results) == 1 && types.ExprString(st.Results[0]) == "buf.Bytes()" {
+				continue
+			}
+			return nil, false
+		default:
+			return nil, false
+		}
+	}
+	return ops, len(ops) > 0
+}
+
+func (w *world) encStmt(e *env, s ast.Stmt, out *encOut) {
+	switch st := s.(type) {
+	case *ast.DeferStmt:
+		if fn, recv := w.callee(e, st.Call); fn != nil && fn.Name() == "Release" && recv != nil && isObj(e, recv, e.writer) {
+			return
+		}
+	case *ast.AssignStmt:
+		// b := packet.NewPacketWriter(...)
+		if len(st.Lhs) == 1 && len(st.Rhs) == 1 && st.Tok == token.DEFINE {
+			if c, ok := st.Rhs[0].(*ast.CallExpr); ok {
+				if fn, _ := w.callee(e, c); fullName(fn) == modPath+"/packet.NewPacketWriter" {
+					e.writer = e.info.ObjectOf(st.Lhs[0].(*ast.Ident))
+					return
+				}
+			}
+			// x := <int expr>   (single-assignment local)
+			if id, ok := st.Lhs[0].(*ast.Ident); ok {
+				if x, ok := w.intExpr(e, st.Rhs[0]); ok {
+					e.locals[e.info.ObjectOf(id)] = x
+					return
+				}
+			}
+		}
+		// msgID, _ := hex.DecodeString(d.MsgID)
+		if len(st.Lhs) == 2 && len(st.Rhs) == 1 && st.Tok == token.DEFINE {
+			if c, ok := st.Rhs[0].(*ast.CallExpr); ok {
+				if fn, _ := w.callee(e, c); fullName(fn) == "encoding/hex.DecodeString" {
+					if id2, ok := st.Lhs[1].(*ast.Ident); ok && id2.Name == "_" {
+						if k, p, ok := w.strArg(e, c.Args[0]); ok && k == "field" {
+							e.bytesL[e.info.ObjectOf(st.Lhs[0].(*ast.Ident))] = "hexdec:" + p
+							return
+						}
+					}
+				}
+			}
+		}
+		// p.F = expr  /  p.A, p.B = e1, e2
+		if st.Tok == token.ASSIGN && len(st.Lhs) == len(st.Rhs) {
+			var as []string
+			ok := true
+			for i := range st.Lhs {
+				p, ok1 := w.fieldPath(e, st.Lhs[i])
+				x, ok2 := w.intExpr(e, st.Rhs[i])
+				if !ok1 || !ok2 || uintBytes(e.info.TypeOf(st.Lhs[i])) == 0 {
+					ok = false
+					break
+				}
+				// the assignment converts to the field's type
+				x = fmt.Sprintf("(.conv %d %s)", uintBytes(e.info.TypeOf(st.Lhs[i])), x)
+				as = append(as, fmt.Sprintf("(%s, %s)", q(p), x))
+			}
+			if ok && len(as) == 1 {
+				parts := strings.SplitN(as[0][1:len(as[0])-1], ", ", 2)
+				out.ops = append(out.ops, fmt.Sprintf(".assign %s %s", parts[0], parts[1]))
+				return
+			}
+			if ok {
+				out.ops = append(out.ops, fmt.Sprintf(".assignIf (.eq (.lit 0) (.lit 0)) [%s]", strings.Join(as, ", ")))
+				return
+			}
+		}
+	case *ast.IfStmt:
+		if st.Init == nil && st.Else == nil {
+			if c, ok := w.condExpr(e, st.Cond); ok {
+				var as []string
+				good := true
+				for _, bs := range st.Body.List {
+					a, ok := bs.(*ast.AssignStmt)
+					if !ok || a.Tok != token.ASSIGN || len(a.Lhs) != len(a.Rhs) {
+						good = false
+						break
+					}
+					for i := range a.Lhs {
+						p, ok1 := w.fieldPath(e, a.Lhs[i])
+						x, ok2 := w.intExpr(e, a.Rhs[i])
+						k := uintBytes(e.info.TypeOf(a.Lhs[i]))
+						if !ok1 || !ok2 || k == 0 {
+							good = false
+							break
+						}
+						as = append(as, fmt.Sprintf("(%s, (.conv %d %s))", q(p), k, x))
+					}
+					if len(st.Body.List) > 1 {
+						good = false // sequential assignments inside one if are not in the closed set
+					}
+				}
+				if good && len(as) > 0 {
+					out.ops = append(out.ops, fmt.Sprintf(".assignIf %s [%s]", c, strings.Join(as, ", ")))
+					return
+				}
+			}
+		}
+	case *ast.ExprStmt:
+		if c, ok := st.X.(*ast.CallExpr); ok {
+			if w.writerCall(e, c, out, nil, "") {
+				return
+			}
+			// pkg.WriteHeaderNoLength(p.Header, b) and friends: inline
+			if fn, recv := w.callee(e, c); fn != nil && recv == nil {
+				if fd := w.funcs[fn]; fd != nil && fd.Body != nil && strings.HasPrefix(fn.Name(), "WriteHeader") {
+					finfo := w.infoOf[fd]
+					ne := &env{info: finfo, paths: map[types.Object]string{}, locals: map[types.Object]string{}, bytesL: map[types.Object]string{}}
+					params := fd.Type.Params.List
+					idx := 0
+					ok := true
+					for _, pf := range params {
+						for _, nm := range pf.Names {
+							if idx >= len(c.Args) {
+								ok = false
+								break
+							}
+							arg := c.Args[idx]
+							idx++
+							if isObj(e, arg, e.writer) {
+								ne.writer = finfo.ObjectOf(nm)
+							} else if p, okp := w.fieldPath(e, arg); okp {
+								ne.paths[finfo.ObjectOf(nm)] = p
+							} else {
+								ok = false
+							}
+						}
+					}
+					if ok && ne.writer != nil {
+						w.encStmts(ne, fd.Body.List, out)
+						return
+					}
+				}
+			}
+		}
+	case *ast.RangeStmt:
+		// for _, x := range p.F { b.WriteFixedLenString(x, n) }
+		if id, ok := st.Key.(*ast.Ident); ok && id.Name == "_" && st.Value != nil && len(st.Body.List) == 1 {
+			if lp, ok := w.fieldPath(e, st.X); ok {
+				if es, ok := st.Body.List[0].(*ast.ExprStmt); ok {
+					if c, ok := es.X.(*ast.CallExpr); ok {
+						var tmp encOut
+						ev := e.info.ObjectOf(st.Value.(*ast.Ident))
+						if w.writerCall(e, c, &tmp, ev, lp) && len(tmp.ops) == 1 && strings.HasPrefix(tmp.ops[0], "ELEM ") {
+							f := strings.Fields(tmp.ops[0])
+							out.ops = append(out.ops, fmt.Sprintf(".repRange %s %s", q(f[1]), f[2]))
+							return
+						}
+					}
+				}
+			}
+		}
+	case *ast.ForStmt:
+		// for i := 0; i < int(cnt); i++ { b.WriteFixedLenString(p.F[i], n) }
+		if ix, cnt, ok := w.countedLoop(e, st); ok && len(st.Body.List) == 1 {
+			if es, ok := st.Body.List[0].(*ast.ExprStmt); ok {
+				if c, ok := es.X.(*ast.CallExpr); ok {
+					ne := e.clone()
+					ne.loopIx = ix
+					var tmp encOut
+					if w.writerCall(ne, c, &tmp, nil, "") && len(tmp.ops) == 1 && strings.HasPrefix(tmp.ops[0], "ELEM ") {
+						f := strings.Fields(tmp.ops[0])
+						out.ops = append(out.ops, fmt.Sprintf(".repCount %s %s %s", q(f[1]), cnt, f[2]))
+						return
+					}
+				}
+			}
+		}
+	case *ast.ReturnStmt:
+		if len(st.Results) == 1 {
+			if c, ok := st.Results[0].(*ast.CallExpr); ok {
+				if fn, recv := w.callee(e, c); fn != nil && recv != nil && isObj(e, recv, e.writer) {
+					switch fn.Name() {
+					case "Bytes":
+						out.fin = ".plain"
+						return
+					case "BytesWithLength":
+						out.fin = ".withLength"
+						return
+					}
+				}
+			}
+		}
+	}
+	out.ops = append(out.ops, w.unsup(s))
+}
+
+// countedLoop matches `for i := 0; i < int(<expr>); i++`.
+func (w *world) countedLoop(e *env, st *ast.ForStmt) (types.Object, string, bool) {
+	init, ok := st.Init.(*ast.AssignStmt)
+	if !ok || init.Tok != token.DEFINE || len(init.Lhs) != 1 || len(init.Rhs) != 1 {
+		return nil, "", false
+	}
+	if n, ok := constInt(e, init.Rhs[0]); !ok || n != 0 {
+		return nil, "", false
+	}
+	ix := e.info.ObjectOf(init.Lhs[0].(*ast.Ident))
+	cond, ok := st.Cond.(*ast.BinaryExpr)
+	if !ok || cond.Op != token.LSS || !isObj(e, cond.X, ix) {
+		return nil, "", false
+	}
+	post, ok := st.Post.(*ast.IncDecStmt)
+	if !ok || post.Tok != token.INC || !isObj(e, post.X, ix) {
+		return nil, "", false
+	}
+	cnt, ok := w.intExpr(e, cond.Y)
+	if !ok {
+		return nil, "", false
+	}
+	return ix, cnt, true
+}
+
+// ---------------------------------------------------------------------------------------------
+// IDecode
+
+type decOut struct {
+	ops []string
+	ret string
+}
+
+// readCall translates a reader primitive call to (kind, arg) where kind ∈ num/cstr/fixedTrim/fixedRaw/nbytes.
+func (w *world) readCall(e *env, x ast.Expr) (kind string, k int, arg string, ok bool) {
+	c, isCall := unparen(x).(*ast.CallExpr)
+	if !isCall {
+		return
+	}
+	fn, recv := w.callee(e, c)
+	if fn == nil || recv == nil || !isObj(e, recv, e.reader) {
+		return
+	}
+	switch fn.Name() {
+	case "ReadUint8":
+		return "num", 1, "", true
+	case "ReadUint16":
+		return "num", 2, "", true
+	case "ReadUint32":
+		return "num", 4, "", true
+	case "ReadUint64":
+		return "num", 8, "", true
+	case "ReadCString":
+		return "cstr", 0, "", true
+	case "ReadCStringN", "ReadCStringNWithoutTrim":
+		if n, isC := constInt(e, c.Args[0]); isC {
+			if fn.Name() == "ReadCStringN" {
+				return "fixedTrim", 0, fmt.Sprint(n), true
+			}
+			return "fixedRaw", 0, fmt.Sprint(n), true
+		}
+	case "ReadNBytes":
+		if a, okA := w.intExpr(e, c.Args[0]); okA {
+			return "nbytes", 0, a, true
+		}
+	}
+	return
+}
+
+// assignRead translates `<path> = <rhs>` where rhs reads from the reader.
+func (w *world) assignRead(e *env, path string, lhsT types.Type, rhs ast.Expr) (string, bool) {
+	rhs = unparen(rhs)
+	// numeric, possibly through a conversion T(b.ReadUintK())
+	inner := rhs
+	if c, ok := rhs.(*ast.CallExpr); ok && len(c.Args) == 1 {
+		if tv, ok := e.info.Types[c.Fun]; ok && tv.IsType() {
+			inner = c.Args[0]
+			// string(b.ReadNBytes(..)) / CommandID(b.ReadUint32())
+			if kind, k, arg, ok := w.readCall(e, inner); ok {
+				switch kind {
+				case "num":
+					if uintBytes(tv.Type) >= k && uintBytes(lhsT) >= k {
+						return fmt.Sprintf(".num %d %s", k, q(path)), true
+					}
+				case "nbytes":
+					return fmt.Sprintf(".bytesN %s %s", q(path), arg), true
+				}
+			}
+			return "", false
+		}
+		// hex.EncodeToString([]byte(b.ReadCStringNWithoutTrim(n)))
+		if fn, _ := w.callee(e, c); fullName(fn) == "encoding/hex.EncodeToString" {
+			a := unparen(c.Args[0])
+			if cc, ok := a.(*ast.CallExpr); ok && len(cc.Args) == 1 {
+				if tv, ok := e.info.Types[cc.Fun]; ok && tv.IsType() {
+					if kind, _, arg, ok := w.readCall(e, cc.Args[0]); ok && kind == "fixedRaw" {
+						return fmt.Sprintf(".fixedRawHex %s %s", q(path), arg), true
+					}
+				}
+			}
+			return "", false
+		}
+	}
+	if kind, k, arg, ok := w.readCall(e, rhs); ok {
+		switch kind {
+		case "num":
+			if uintBytes(lhsT) >= k {
+				return fmt.Sprintf(".num %d %s", k, q(path)), true
+			}
+		case "cstr":
+			return fmt.Sprintf(".cstr %s", q(path)), true
+		case "fixedTrim":
+			return fmt.Sprintf(".fixedTrim %s %s", q(path), arg), true
+		case "fixedRaw":
+			return fmt.Sprintf(".fixedRaw %s %s", q(path), arg), true
+		case "nbytes":
+			return fmt.Sprintf(".bytesN %s %s", q(path), arg), true
+		}
+	}
+	return "", false
+}
+
+func (w *world) decStmts(e *env, stmts []ast.Stmt, out *decOut) {
+	for i := 0; i < len(stmts); i++ {
+		s := stmts[i]
+		// p.F = make([]string, cnt) followed by the counted index loop
+		if as, ok := s.(*ast.AssignStmt); ok && as.Tok == token.ASSIGN && len(as.Lhs) == 1 && len(as.Rhs) == 1 && i+1 < len(stmts) {
+			if c, ok := as.Rhs[0].(*ast.CallExpr); ok {
+				if id, ok := c.Fun.(*ast.Ident); ok && id.Name == "make" && len(c.Args) == 2 {
+					if lp, ok := w.fieldPath(e, as.Lhs[0]); ok {
+						if cnt, ok := w.intExpr(e, c.Args[1]); ok {
+							if fs, ok := stmts[i+1].(*ast.ForStmt); ok {
+								if ix, cnt2, ok := w.countedLoop(e, fs); ok && cnt2 == cnt && len(fs.Body.List) == 1 {
+									if ba, ok := fs.Body.List[0].(*ast.AssignStmt); ok && ba.Tok == token.ASSIGN && len(ba.Lhs) == 1 {
+										if ie, ok := ba.Lhs[0].(*ast.IndexExpr); ok && isObj(e, ie.Index, ix) {
+											if lp2, ok := w.fieldPath(e, ie.X); ok && lp2 == lp {
+												if kind, _, arg, ok := w.readCall(e, ba.Rhs[0]); ok && kind == "fixedTrim" {
+													out.ops = append(out.ops, fmt.Sprintf(".repMake %s %s %s", q(lp), cnt, arg))
+													i++
+													continue
+												}
+											}
+										}
+									}
+								}
+							}
+						}
+					}
+				}
+			}
+		}
+		w.decStmt(e, s, out)
+	}
+}
+
+func (w *world) decStmt(e *env, s ast.Stmt, out *decOut) {
+	switch st := s.(type) {
+	case *ast.DeferStmt:
+		if fn, recv := w.callee(e, st.Call); fn != nil && fn.Name() == "Release" && recv != nil && isObj(e, recv, e.reader) {
+			return
+		}
+	case *ast.IfStmt:
+		// if len(data) < N { return <err> }
+		if st.Init == nil && st.Else == nil && len(st.Body.List) == 1 {
+			if b, ok := st.Cond.(*ast.BinaryExpr); ok && b.Op == token.LSS {
+				if c, ok := b.X.(*ast.CallExpr); ok {
+					if id, ok := c.Fun.(*ast.Ident); ok && id.Name == "len" {
+						if _, isParam := e.info.ObjectOf(unparen(c.Args[0]).(*ast.Ident)).(*types.Var); isParam && e.reader == nil {
+							if n, ok := constInt(e, b.Y); ok {
+								if r, ok := st.Body.List[0].(*ast.ReturnStmt); ok && len(r.Results) == 1 {
+									if id, ok := unparen(r.Results[0]).(*ast.Ident); !ok || id.Name != "nil" {
+										out.ops = append(out.ops, fmt.Sprintf(".guard %d", n))
+										return
+									}
+								}
+							}
+						}
+					}
+				}
+			}
+		}
+	case *ast.DeclStmt:
+		// var parseErr error
+		if gd, ok := st.Decl.(*ast.GenDecl); ok && gd.Tok == token.VAR && len(gd.Specs) == 1 {
+			if vs, ok := gd.Specs[0].(*ast.ValueSpec); ok && len(vs.Values) == 0 && types.ExprString(vs.Type) == "error" {
+				return
+			}
+		}
+	case *ast.AssignStmt:
+		if len(st.Lhs) == 1 && len(st.Rhs) == 1 && st.Tok == token.DEFINE {
+			if c, ok := st.Rhs[0].(*ast.CallExpr); ok {
+				if fn, _ := w.callee(e, c); fullName(fn) == modPath+"/packet.NewPacketReader" {
+					e.reader = e.info.ObjectOf(st.Lhs[0].(*ast.Ident))
+					return
+				}
+				// decodeErr := lo.Ternary(b.Error() != nil, b.Error(), parseErr)
+				if fn, _ := w.callee(e, c); fn != nil && fn.Name() == "Ternary" && len(c.Args) == 3 {
+					rn := e.reader.Name()
+					if types.ExprString(c.Args[0]) == rn+".Error() != nil" && types.ExprString(c.Args[1]) == rn+".Error()" && types.ExprString(c.Args[2]) == "parseErr" {
+						e.locals[e.info.ObjectOf(st.Lhs[0].(*ast.Ident))] = "TERNARY"
+						return
+					}
+				}
+			}
+		}
+		if len(st.Lhs) == 1 && len(st.Rhs) == 1 && st.Tok == token.ASSIGN {
+			if p, ok := w.fieldPath(e, st.Lhs[0]); ok {
+				lt := e.info.TypeOf(st.Lhs[0])
+				// p.Header = pkg.ReadHeader(b)
+				if c, ok := st.Rhs[0].(*ast.CallExpr); ok {
+					fn, recv := w.callee(e, c)
+					if fn != nil && recv == nil && fn.Name() == "ReadHeader" && len(c.Args) == 1 && isObj(e, c.Args[0], e.reader) {
+						if ops, ok := w.inlineReadHeader(fn, p); ok {
+							out.ops = append(out.ops, ops...)
+							return
+						}
+					}
+					switch fullName(fn) {
+					case modPath + "/smpp.ReadTLVs1", modPath + "/smgp.ReadOptions":
+						if len(c.Args) == 1 && isObj(e, c.Args[0], e.reader) {
+							out.ops = append(out.ops, fmt.Sprintf(".tlvsRead %s", q(p)))
+							return
+						}
+					}
+				}
+				// h.Sequence = [3]uint32{r.ReadUint32(), …}
+				if cl, ok := st.Rhs[0].(*ast.CompositeLit); ok {
+					if _, isArr := lt.Underlying().(*types.Array); isArr {
+						var ops []string
+						good := true
+						for i, el := range cl.Elts {
+							kind, k, _, ok := w.readCall(e, el)
+							if !ok || kind != "num" {
+								good = false
+								break
+							}
+							ops = append(ops, fmt.Sprintf(".num %d %s", k, q(fmt.Sprintf("%s.%d", p, i))))
+						}
+						if good {
+							out.ops = append(out.ops, ops...)
+							return
+						}
+					}
+				}
+				if op, ok := w.assignRead(e, p, lt, st.Rhs[0]); ok {
+					out.ops = append(out.ops, op)
+					return
+				}
+			}
+		}
+		// s.Options, parseErr = smgp.ParseOptions(b.Bytes())
+		if len(st.Lhs) == 2 && len(st.Rhs) == 1 && st.Tok == token.ASSIGN {
+			if c, ok := st.Rhs[0].(*ast.CallExpr); ok {
+				if fn, _ := w.callee(e, c); fullName(fn) == modPath+"/smgp.ParseOptions" && len(c.Args) == 1 {
+					if p, ok := w.fieldPath(e, st.Lhs[0]); ok && types.ExprString(st.Lhs[1]) == "parseErr" &&
+						types.ExprString(c.Args[0]) == e.reader.Name()+".Bytes()" {
+						out.ops = append(out.ops, fmt.Sprintf(".optsParse %s", q(p)))
+						return
+					}
+				}
+			}
+		}
+	case *ast.ForStmt:
+		// for i<cnt { tmp := b.ReadCStringN(n); p.F = append(p.F, tmp) }
+		if _, cnt, ok := w.countedLoop(e, st); ok && len(st.Body.List) == 2 {
+			if a1, ok := st.Body.List[0].(*ast.AssignStmt); ok && a1.Tok == token.DEFINE && len(a1.Lhs) == 1 {
+				if kind, _, arg, ok := w.readCall(e, a1.Rhs[0]); ok && kind == "fixedTrim" {
+					tmp := e.info.ObjectOf(a1.Lhs[0].(*ast.Ident))
+					if a2, ok := st.Body.List[1].(*ast.AssignStmt); ok && a2.Tok == token.ASSIGN && len(a2.Lhs) == 1 {
+						if lp, ok := w.fieldPath(e, a2.Lhs[0]); ok {
+							if c, ok := a2.Rhs[0].(*ast.CallExpr); ok && len(c.Args) == 2 {
+								if id, ok := c.Fun.(*ast.Ident); ok && id.Name == "append" {
+									if lp2, ok := w.fieldPath(e, c.Args[0]); ok && lp2 == lp && isObj(e, c.Args[1], tmp) {
+										out.ops = append(out.ops, fmt.Sprintf(".repAppend %s %s %s", q(lp), cnt, arg))
+										return
+									}
+								}
+							}
+						}
+					}
+				}
+			}
+		}
+	case *ast.ReturnStmt:
+		if len(st.Results) == 1 {
+			r := unparen(st.Results[0])
+			if id, ok := r.(*ast.Ident); ok {
+				if id.Name == "nil" {
+					out.ret = ".nilAlways"
+					return
+				}
+				if e.locals[e.info.ObjectOf(id)] == "TERNARY" {
+					out.ret = ".readerOrParse"
+					return
+				}
+			}
+			if c, ok := r.(*ast.CallExpr); ok {
+				if fn, recv := w.callee(e, c); fn != nil && fn.Name() == "Error" && recv != nil && isObj(e, recv, e.reader) {
+					out.ret = ".readerErr"
+					return
+				}
+			}
+		}
+	}
+	out.ops = append(out.ops, w.unsup(s))
+}
+
+// inlineReadHeader: func ReadHeader(r *packet.Reader) Header { var h Header; h.X = r.ReadUint32(); …; return h }
+func (w *world) inlineReadHeader(fn *types.Func, prefix string) ([]string, bool) {
+	fd := w.funcs[fn]
+	if fd == nil || fd.Body == nil || len(fd.Type.Params.List) != 1 || len(fd.Type.Params.List[0].Names) != 1 {
+		return nil, false
+	}
+	info := w.infoOf[fd]
+	e := &env{info: info, paths: map[types.Object]string{}, locals: map[types.Object]string{}, bytesL: map[types.Object]string{}}
+	e.reader = info.ObjectOf(fd.Type.Params.List[0].Names[0])
+	var out decOut
+	for _, s := range fd.Body.List {
+		switch st := s.(type) {
+		case *ast.DeclStmt: // var h Header
+			if gd, ok := st.Decl.(*ast.GenDecl); ok && gd.Tok == token.VAR && len(gd.Specs) == 1 {
+				if vs, ok := gd.Specs[0].(*ast.ValueSpec); ok && len(vs.Names) == 1 && len(vs.Values) == 0 {
+					e.paths[info.ObjectOf(vs.Names[0])] = prefix
+					continue
+				}
+			}
+			return nil, false
+		case *ast.AssignStmt:
+			if st.Tok == token.DEFINE && len(st.Lhs) == 1 && len(st.Rhs) == 1 { // h := Header{}
+				if cl, ok := st.Rhs[0].(*ast.CompositeLit); ok && len(cl.Elts) == 0 {
+					e.paths[info.ObjectOf(st.Lhs[0].(*ast.Ident))] = prefix
+					continue
+				}
+			}
+			w.decStmt(e, s, &out)
+		case *ast.ReturnStmt:
+			if len(st.Results) == 1 {
+				if p, ok := w.fieldPath(e, st.Results[0]); ok && p == prefix {
+					continue
+				}
+			}
+			return nil, false
+		default:
+			return nil, false
+		}
+	}
+	for _, o := range out.ops {
+		if strings.HasPrefix(o, ".unsupported") {
+			return nil, false
+		}
+	}
+	return out.ops, len(out.ops) > 0
+}
+
+// ---------------------------------------------------------------------------------------------
+
+type pduInfo struct {
+	pkg   *packages.Package
+	named *types.Named
+	name  string // "cmpp20.PduSubmit"
+	lean  string // "cmpp20_PduSubmit"
+	enc   *ast.FuncDecl
+	dec   *ast.FuncDecl
+}
+
+func (w *world) method(named *types.Named, name string) *ast.FuncDecl {
+	ms := types.NewMethodSet(types.NewPointer(named))
+	for i := 0; i < ms.Len(); i++ {
+		if fn, ok := ms.At(i).Obj().(*types.Func); ok && fn.Name() == name {
+			if fd := w.funcs[fn]; fd != nil && fd.Recv != nil {
+				// only methods declared on this type itself (not promoted)
+				if len(ms.At(i).Index()) == 1 {
+					return fd
+				}
+			}
+		}
+	}
+	return nil
+}
+
+func (w *world) pdus() []pduInfo {
+	var res []pduInfo
+	var paths []string
+	for p := range w.pkgs {
+		if strings.HasPrefix(p, modPath) {
+			paths = append(paths, p)
+		}
+	}
+	sort.Strings(paths)
+	for _, pp := range paths {
+		p := w.pkgs[pp]
+		scope := p.Types.Scope()
+		for _, n := range scope.Names() {
+			tn, ok := scope.Lookup(n).(*types.TypeName)
+			if !ok {
+				continue
+			}
+			named, ok := tn.Type().(*types.Named)
+			if !ok {
+				continue
+			}
+			if _, ok := named.Underlying().(*types.Struct); !ok {
+				continue
+			}
+			enc, dec := w.method(named, "IEncode"), w.method(named, "IDecode")
+			if enc == nil || dec == nil {
+				continue
+			}
+			res = append(res, pduInfo{pkg: p, named: named, name: p.Types.Name() + "." + n, lean: p.Types.Name() + "_" + n, enc: enc, dec: dec})
+		}
+	}
+	return res
+}
+
+func recvObj(info *types.Info, fd *ast.FuncDecl) types.Object {
+	if fd.Recv == nil || len(fd.Recv.List) != 1 || len(fd.Recv.List[0].Names) != 1 {
+		return nil
+	}
+	return info.ObjectOf(fd.Recv.List[0].Names[0])
+}
+
+func leanList(items []string, indent string) string {
+	if len(items) == 0 {
+		return "[]"
+	}
+	return "[\n" + indent + strings.Join(items, ",\n"+indent) + "]"
+}
+
+type pduJSON struct {
+	Name   string     `json:"name"`
+	Fields [][2]string `json:"fields"`
+	Enc    []string   `json:"enc"`
+	Fin    string     `json:"fin"`
+	Dec    []string   `json:"dec"`
+	Ret    string     `json:"ret"`
+}
+
+var jsonPdus []pduJSON
+
+func (w *world) layoutsJSON() string {
+	b, err := json.MarshalIndent(jsonPdus, "", " ")
+	if err != nil {
+		panic(err)
+	}
+	return string(b) + "\n"
+}
+
+func (w *world) genLayouts() string {
+	var sb strings.Builder
+	sb.WriteString("-- GENERATED by /verif/go/extract from the Go source of the repository's working tree. Do not edit.\n")
+	sb.WriteString("import SmsVerif.Model.Layout\nnamespace SmsVerif.Gen\nopen SmsVerif\n\n")
+	var names []string
+	for _, pi := range w.pdus() {
+		var fs []field
+		w.flatten("", pi.named, &fs)
+		var flds []string
+		for _, f := range fs {
+			flds = append(flds, fmt.Sprintf("(%s, %s)", q(f.path), f.ty))
+		}
+		// encode
+		info := pi.pkg.TypesInfo
+		ee := &env{info: info, paths: map[types.Object]string{}, locals: map[types.Object]string{}, bytesL: map[types.Object]string{}}
+		if ro := recvObj(info, pi.enc); ro != nil {
+			ee.paths[ro] = ""
+		}
+		var eo encOut
+		w.encStmts(ee, pi.enc.Body.List, &eo)
+		if eo.fin == "" {
+			eo.fin = ".plain"
+			eo.ops = append(eo.ops, fmt.Sprintf(".unsupported %s", q(w.pos(pi.enc)+" no recognised return")))
+		}
+		// decode
+		de := &env{info: info, paths: map[types.Object]string{}, locals: map[types.Object]string{}, bytesL: map[types.Object]string{}}
+		if ro := recvObj(info, pi.dec); ro != nil {
+			de.paths[ro] = ""
+		}
+		var do decOut
+		w.decStmts(de, pi.dec.Body.List, &do)
+		if do.ret == "" {
+			do.ret = ".readerErr"
+			do.ops = append(do.ops, fmt.Sprintf(".unsupported %s", q(w.pos(pi.dec)+" no recognised return")))
+		}
+		fmt.Fprintf(&sb, "def %s : PduDesc := {\n  name := %s,\n  fields := %s,\n  enc := %s,\n  fin := %s,\n  dec := %s,\n  ret := %s }\n\n",
+			pi.lean, q(pi.name), leanList(flds, "    "), leanList(eo.ops, "    "), eo.fin, leanList(do.ops, "    "), do.ret)
+		names = append(names, pi.lean)
+		pj := pduJSON{Name: pi.name, Enc: eo.ops, Fin: eo.fin, Dec: do.ops, Ret: do.ret}
+		for _, f := range fs {
+			pj.Fields = append(pj.Fields, [2]string{f.path, f.ty})
+		}
+		jsonPdus = append(jsonPdus, pj)
+	}
+	fmt.Fprintf(&sb, "def allPdus : List PduDesc := [%s]\n\nend SmsVerif.Gen\n", strings.Join(names, ", "))
+	return sb.String()
 }
